@@ -13,6 +13,20 @@ import (
 
 type Locker = sync.Locker
 
+// SeqMode is set by sequential (single-goroutine) harnesses: locking a mutex
+// that is already held can then never succeed, so it panics with
+// ErrSelfDeadlock instead of hanging.
+var SeqMode bool
+
+type selfDeadlock struct{}
+
+func (selfDeadlock) Error() string {
+	return "vsync: lock of a mutex that is already held (the operation would never return)"
+}
+
+// ErrSelfDeadlock is the panic value raised in SeqMode.
+var ErrSelfDeadlock error = selfDeadlock{}
+
 type Mutex struct {
 	mu sync.Mutex
 	st vsched.MutexState
@@ -21,6 +35,8 @@ type Mutex struct {
 func (m *Mutex) Lock() {
 	if vsched.Active() {
 		vsched.Lock(&m.st, false)
+	} else if SeqMode && m.st.Held {
+		panic(ErrSelfDeadlock)
 	}
 	m.mu.Lock()
 	if !vsched.Active() {
